@@ -69,10 +69,20 @@ def r2_r3(ctx):
               "key_types": [cs.fn.get("self_ty") for _, cs in cmps]}
     if not sorts:
         ctx.fail(r2, "sort-call", "sort_fields_canonically no longer sorts", "%s:%d" % (b.file, b.line), detail)
-    elif not cmps:
+    elif not cmps and not any(cs.name in ("sort_by_key", "sort_by_cached_key", "sort") for cs in sorts):
         ctx.fail(r2, "anchor-lost:key-comparison", "no Ord::cmp call found in the comparison closure", "%s:%d" % (b.file, b.line), detail)
     else:
-        kt = cmps[0][1].fn.get("self_ty") or ""
+        if cmps:
+            kt = cmps[0][1].fn.get("self_ty") or ""
+            where = cmps[0][1].loc()
+        else:
+            # sort_by_key(|..| key): the key type is a generic argument of the call
+            sk = [cs for cs in sorts if cs.name in ("sort_by_key", "sort_by_cached_key")]
+            tuples = [a for a in (sk[0].fn.get("args") or []) if a.startswith("(bool")] if sk else []
+            kt = next((a for a in tuples if "Tag" in a), tuples[0] if tuples else "")
+            where = (sk or sorts)[0].loc()
+            detail["key_types"] = [kt]
+            cmps = [(None, (sk or sorts)[0])]
         m = re.match(r"\((bool), &?(.*)\)$", kt)
         if not m or "Tag" not in kt:
             ctx.fail(r2, "key-type", "the sort key is `%s`, not (extension flag: bool, tag)" % kt, cmps[0][1].loc(), detail)
@@ -81,20 +91,40 @@ def r2_r3(ctx):
         if any(cs.name in ("reverse", "rev") for c in closures + [b] for cs in c.calls()) or \
                 any(cs.name == "reverse" and (cs.trait or "").endswith("Ordering") for c in closures for cs in c.calls()):
             ctx.fail(r2, "key-reversed", "the comparison result is reversed", cmps[0][1].loc(), detail)
-    # flag and tag of the key: in the map closure
+    # flag and tag of the key: in the map closure (or in a private helper it calls); values are traced back to the parameters of
+    # sort_fields_canonically, so the names of locals and closure parameters do not matter
     flag_ok = tag_ok = False
     flag_detail = []
+
+    def candidates():
+        for c in closures:
+            O = X.Origins(c, P)
+            for cm in F.comparisons(c, O):
+                if cm.lex is not None and cm.rex is not None:
+                    yield F.rd(R.in_root_terms(P, c, cm.lex)), F.rd(R.in_root_terms(P, c, cm.rex)), cm
+            for cs in c.calls():
+                if cs.fn is None or not cs.is_local or cs.trait:
+                    continue
+                t = P.resolve_callee(c.crate, cs)
+                if t is None or t.file != b.file or t.def_kind not in ("Fn", "AssocFn") or t.key == b.key:
+                    continue
+                pn = t.param_names()
+                sub = {pn[i + 1]: R.in_root_terms(P, c, a) for i, a in enumerate(O.call_args(cs)) if pn.get(i + 1)}
+                Ot = X.Origins(t, P)
+                for cm in F.comparisons(t, Ot):
+                    if cm.lex is not None and cm.rex is not None:
+                        yield F.rd(R.substitute(cm.lex, sub)), F.rd(R.substitute(cm.rex, sub)), cm
+    for lt, rt, cm in candidates():
+        flag_detail.append("%s  [%s | %s]" % (cm.raw[:60], lt[:50], rt[:50]))
+        if cm.kind != "b":
+            continue
+        # `index > after`: with the extension position on the left of the normal form the boundary is 0, on the right it is 1
+        if "extended_after_index" in lt and "extended_after_index" not in rt and cm.boundary == 0:
+            flag_ok = True
+        if "extended_after_index" in rt and "extended_after_index" not in lt and cm.boundary == 1:
+            flag_ok = True
     for c in closures:
         O = X.Origins(c, P)
-        for cm in F.comparisons(c, O):
-            flag_detail.append(cm.raw)
-            # index > after   <=>   after - index boundary 0  (or index - after boundary 1)
-            txt = (cm.lhs, cm.rhs, cm.kind, cm.boundary)
-            if cm.kind == "b" and "index" in (cm.lhs + cm.rhs) and "after" in (cm.lhs + cm.rhs):
-                # canonical orientation: sorted names; `index > after`: D = after - index < 0 -> boundary 0 when lhs is `after`
-                lhs = cm.lhs.lstrip("^*&")
-                if (lhs.startswith("after") and cm.boundary == 0) or (lhs.startswith("index") and cm.boundary == 1):
-                    flag_ok = True
         for cs in c.calls():
             if cs.name == "or_else" and "tag" in X.render(O.call_args(cs)[0]):
                 tag_ok = True
@@ -329,6 +359,13 @@ def r7(ctx, rule="C16.R7"):
         ok = e[0] == "call" and X.last_seg(e[1]) in ("unwrap_or_else", "unwrap_or", "map_or", "map_or_else") and "extension_after_index(" in txt
         # the Some side adds one to the index
         plus_one = False
+        if e[0] == "phi":
+            # `match choice.extension_after_index() { Some(i) => i + 1, None => choice.len() }`
+            alts = [F.rd(R.positional(x)) for x in e[1]]
+            some = [x for x in alts if "extension_after_index(" in x and x.endswith("Add 1)") and x.startswith("(")]
+            none = [x for x in alts if x.startswith("Choice::len(") or x.endswith("::len(($2 as Choice).0)")]
+            ok = len(alts) == 2 and len(some) == 1 and len(none) == 1
+            plus_one = ok
         for cl in P.closures_of(b):
             if any(x[0] == "agg" and x[1] == "closure" and x[2] == cl.path for x in X.walk(a)):
                 for (op, val, pos), locs in F.const_ops(cl, X.Origins(cl, P)).items():
